@@ -19,8 +19,12 @@ Fixpoint contigb (first : N) (es : list entry) : bool :=
 Fixpoint terms_mono (lo : N) (es : list entry) : Prop :=
   match es with [] => True | e :: es' => lo <= e_term e /\ terms_mono (e_term e) es' end.
 
+(* CHANGED (C19): third conjunct added.  A purge boundary at index 0 means "nothing purged" and then
+   carries term 0 (as in plog0 / buf0); without it the state {pb_idx=0; pb_term=5; pents=[]}
+   (reachable by OPurge 0 5) is p_wf, and the request OFilter 0 0 [(1,term 1)] leads out of p_wf. *)
 Definition p_wf (p : plog) : Prop :=
-  contig (pb_idx p + 1) (pents p) /\ terms_mono (N.max 1 (pb_term p)) (pents p).
+  contig (pb_idx p + 1) (pents p) /\ terms_mono (N.max 1 (pb_term p)) (pents p) /\
+  (pb_idx p = 0 -> pb_term p = 0).
 
 Definition p_last_idx (p : plog) : N :=
   match last_entry (pents p) with Some e => e_idx e | None => pb_idx p end.
@@ -91,14 +95,20 @@ Definition p_step (p : plog) (o : op) : plog * val :=
   end.
 
 (* ---- which operations a Raft role issues ("Raft-shaped"), relative to the plain log ---- *)
+(* CHANGED (C19): log indexes are u64 in the code.  The model uses unbounded N, and the conflict
+   truncation of the code is remove_range(d ..= u64::MAX), so the refinement needs the bound. *)
+Definition U64_MAX : N := 18446744073709551615.
+Definition idx_bounded (es : list entry) : Prop := forall e, In e es -> e_idx e <= U64_MAX.
 Definition consistent_with (p : plog) (es : list entry) : Prop :=
   forall e e', In e es -> In e' (pents p) -> e_idx e = e_idx e' -> e_term e = e_term e' -> e = e'.
 
 Definition shaped (p : plog) (o : op) : Prop :=
   match o with
-  | OAppend es => es <> [] /\ contig (p_last_idx p + 1) es /\ terms_mono (N.max 1 (p_last_term p)) es
+  | OAppend es => es <> [] /\ contig (p_last_idx p + 1) es /\ terms_mono (N.max 1 (p_last_term p)) es /\
+      idx_bounded es (* CHANGED (C19): added *)
   | OFilter prev pterm es =>
       contig (prev + 1) es /\ terms_mono (N.max 1 pterm) es /\
+      idx_bounded es /\ (* CHANGED (C19): added *)
       (prev = 0 -> pterm = 0) /\
       ((prev = 0 /\ pterm = 0) ->
          (* the reset branch of the code: only a refinement of the Raft rule when the request
@@ -107,6 +117,7 @@ Definition shaped (p : plog) (o : op) : Prop :=
          (forall e', In e' (pents p) -> exists e, In e es /\ e_idx e = e_idx e') /\
          consistent_with p es)
   | OPurge cidx cterm =>
+      1 <= cidx /\ (* CHANGED (C19): added; a snapshot boundary is a real log index *)
       pb_idx p <= cidx /\ (forall e, In e (pents p) -> e_idx e = cidx -> e_term e = cterm) /\
       (p_last_idx p < cidx -> p_last_term p <= cterm) /\ 1 <= cterm /\
       (forall e, In e (pents p) -> e_idx e <= cidx -> e_term e <= cterm) /\
@@ -132,15 +143,18 @@ Definition is_nil {A} (l : list A) : bool := match l with [] => true | _ => fals
 
 Definition shaped_b (p : plog) (o : op) : bool :=
   match o with
-  | OAppend es => negb (is_nil es) && contigb (p_last_idx p + 1) es && terms_monob (N.max 1 (p_last_term p)) es
+  | OAppend es => negb (is_nil es) && contigb (p_last_idx p + 1) es && terms_monob (N.max 1 (p_last_term p)) es &&
+      forallb (fun e => e_idx e <=? U64_MAX) es (* CHANGED (C19) *)
   | OFilter prev pterm es =>
       contigb (prev + 1) es && terms_monob (N.max 1 pterm) es &&
+      forallb (fun e => e_idx e <=? U64_MAX) es && (* CHANGED (C19) *)
       (negb (prev =? 0) || (pterm =? 0)) &&
       (negb ((prev =? 0) && (pterm =? 0)) ||
          ((pb_idx p =? 0) && (negb (is_nil es) || is_nil (pents p)) &&
           forallb (fun e' => existsb (fun e => e_idx e =? e_idx e') es) (pents p) &&
           forallb (fun e => forallb (fun e' => negb ((e_idx e =? e_idx e') && (e_term e =? e_term e')) || entry_eqb e e') (pents p)) es))
   | OPurge cidx cterm =>
+      (1 <=? cidx) && (* CHANGED (C19) *)
       (pb_idx p <=? cidx) &&
       forallb (fun e => negb (e_idx e =? cidx) || (e_term e =? cterm)) (pents p) &&
       (negb (p_last_idx p <? cidx) || (p_last_term p <=? cterm)) && (1 <=? cterm) &&
